@@ -174,7 +174,9 @@ impl Matcher {
         if let Some(count) = analysis.nb_alt_literals {
             // The regex can be covered entirely by literals. This is optimal, so use this if possible.
             // TODO: handle more modifiers
-            if count < 100 && !modifiers.nocase && !modifiers.wide {
+            // A count of 0 means the regex contains an empty class (for example `[^\x00-\xff]`):
+            // it cannot match anything, which cannot be expressed with literals.
+            if count > 0 && count < 100 && !modifiers.nocase && !modifiers.wide {
                 if let Some(literals) = only_literals::hir_to_only_literals(hir) {
                     return Ok(Self {
                         literals: literals.into_iter().map(Vec::into_boxed_slice).collect(),
